@@ -10,14 +10,14 @@ import (
 type expr interface{ exprNode() }
 
 type (
-	colRef   struct{ name string }   // folded (or literal when quoted) column name
-	paramRef struct{ n int }         // $n
-	numLit   struct{ text string }   // with optional leading sign
-	strLit   struct{ s string }      // '...'
-	boolLit  struct{ b bool }        // TRUE / FALSE
-	nullLit  struct{}                // NULL
-	defLit   struct{}                // DEFAULT
-	cmpExpr  struct {                // l op r
+	colRef   struct{ name string } // folded (or literal when quoted) column name
+	paramRef struct{ n int }       // $n
+	numLit   struct{ text string } // with optional leading sign
+	strLit   struct{ s string }    // '...'
+	boolLit  struct{ b bool }      // TRUE / FALSE
+	nullLit  struct{}              // NULL
+	defLit   struct{}              // DEFAULT
+	cmpExpr  struct {              // l op r
 		op   string
 		l, r expr
 	}
@@ -560,8 +560,8 @@ type (
 	}
 )
 
-func (b bCol) eval(_ *evalCtx, row []any) (any, *Error)   { return row[b.idx], nil }
-func (b bConst) eval(_ *evalCtx, _ []any) (any, *Error)   { return b.v, nil }
+func (b bCol) eval(_ *evalCtx, row []any) (any, *Error) { return row[b.idx], nil }
+func (b bConst) eval(_ *evalCtx, _ []any) (any, *Error) { return b.v, nil }
 func (b bArrLen) eval(ev *evalCtx, row []any) (any, *Error) {
 	v, err := b.e.eval(ev, row)
 	if err != nil {
